@@ -94,7 +94,7 @@ struct FamilySpec {
     std::string str() const {
         std::string s = kind + ":p=" + std::to_string(chunks);
         if (kind == "density") s += ":rep=" + std::to_string(rep) + ":w=" + std::to_string(width) + ":word=" + std::to_string(word) + ":seam=" + std::to_string(seam);
-        else if (kind == "chunktail") s += ":rep=" + std::to_string(rep) + ":word=" + std::to_string(word);
+        else if (kind == "chunktail") s += ":rep=" + std::to_string(rep) + ":w=" + std::to_string(width) + ":word=" + std::to_string(word);
         else if (kind == "longrun") s += ":n=" + std::to_string(n) + ":seam=" + std::to_string(seam) + ":rep=" + std::to_string(rep) + ":w=" + std::to_string(width) + ":word=" + std::to_string(word);
         else if (kind == "seam") s += ":n=" + std::to_string(n) + ":seam=" + std::to_string(seam) + ":w=" + std::to_string(width) + ":word=" + std::to_string(word);
         else { s += ":rep=" + std::to_string(rep) + ":b="; for (size_t i = 0; i < blocks.size(); ++i) s += (i ? "." : "") + std::to_string(blocks[i]); }
@@ -185,13 +185,15 @@ template<typename K> bool generate_family(const FamilySpec &f, size_t eps, std::
         focus.push_back(0); focus.push_back(n - 1);
         if (cur > hi) return false;
     } else if (f.kind == "chunktail") {
-        // `rep` clusters of 4 keys (one bottom segment each for small epsilon); the gap multiplier toggles between 1 and 8 exactly
-        // `word` clusters before every boundary of a split of the cluster sequence into `chunks` parts: if an upper level (which has
+        // `rep` clusters of 4 keys (one bottom segment each for small epsilon); a jump of 2^24 in key space plus a toggle of the gap
+        // multiplier between 1 and 8 occur exactly `word` clusters before every boundary of a split of the cluster sequence into `chunks` parts: if an upper level (which has
         // one point per bottom segment) is built by the chunked builder, the last segment of every chunk is `word` points long.
         long C = f.rep, p = f.chunks, per = C / p; W cur = 1000; int m = 0;
         const W mult[2] = {1, 8};
         for (long c = 0; c < C; ++c) {
-            for (long j = 1; j < p; ++j) if (c == j * per - f.word) m ^= 1;
+            // a jump in key space (no line can absorb the points after it) and a density toggle `word` clusters before each boundary
+            for (long j = 1; j < p; ++j) if (c == j * per - f.word) { m ^= 1; cur += W(1) << 24; }
+            if (f.width > 0 && c % f.width == 0) m ^= 1;   // background zig-zag of period `width` clusters, so that the upper-level models use their whole error band
             size_t first_pos = keys.size();
             for (int j = 0; j < 4; ++j) { cur += 1; keys.push_back(cur); }
             cur += 40 * mult[m];
